@@ -230,6 +230,7 @@ func c07Cases(tier string) int {
 
 func init() {
 	floors := map[string]int64{
+		"nested_view_programs": 30, "nested_view_controls_accepted": 30,
 		"programs": 1000, "accepted_and_executed": 150, "rejected_by_purity": 500,
 		"executions_monitored": 600, "control_runs": 300, "control_effect_detected": 250,
 		"layout:S": 150, "layout:C": 300, "mode:script": 200, "mode:transaction": 100,
@@ -276,6 +277,8 @@ func runC07(c *core.Ctx) {
 		idx := (c.Case*c07ProgsPerCase + i) % len(c07catalog)
 		c07Program(c, newC07Prog(c.Rng, idx))
 	}
+	// nested view scopes with an escaping inner view function (c07_nested.go)
+	c07Nested(c)
 }
 
 func c07Key(p *c07prog, effects []string) string {
